@@ -401,8 +401,14 @@ type stringTransformer struct {
 }
 
 func (s stringTransformer) transformNameNode(nd dagpb.String) dagpb.String {
+	name := nd.String()
+	if len(name) < s.maxPadLen {
+		// a child shard with a smaller fanout than the root uses a shorter prefix; there is
+		// nothing to strip from such a name
+		return nd
+	}
 	nb := dagpb.Type.String.NewBuilder()
-	err := nb.AssignString(nd.String()[s.maxPadLen:])
+	err := nb.AssignString(name[s.maxPadLen:])
 	if err != nil {
 		return nil
 	}
